@@ -1146,8 +1146,51 @@ def run_xpath(case, cx):
 
 
 # ------------------------------------------------------------------ harness interface
+REUSE_FIRST = ["$d + xs:dayTimeDuration('PT1H')", "$d - xs:dayTimeDuration('PT0S')", "$d lt xs:dateTime('2000-01-01T00:00:00Z')",
+               "$d - xs:dateTime('2000-01-01T00:00:00Z')", "$d eq $d", "string($d)", "$d - xs:dateTime('12000-01-01T00:00:00Z')",
+               "adjust-dateTime-to-timezone($d)", "year-from-dateTime($d)"]
+REUSE_THEN = ["$d gt xs:dateTime('2000-01-01T00:00:00Z')", "$d - xs:dateTime('12000-01-01T00:00:00Z')",
+              "$d - xs:dateTime('1999-12-31T23:00:00Z')", "$d + xs:dayTimeDuration('P1D')",
+              "adjust-dateTime-to-timezone($d, xs:dayTimeDuration('PT5H')) + xs:dayTimeDuration('PT1H')",
+              "adjust-dateTime-to-timezone($d, ()) + xs:dayTimeDuration('PT1H')",
+              "adjust-dateTime-to-timezone($d, xs:dayTimeDuration('-PT8H')) - xs:dateTime('2000-01-01T00:00:00Z')",
+              "adjust-dateTime-to-timezone($d) - xs:dayTimeDuration('PT1H')", "xs:date($d)", "string($d)",
+              "$d le xs:dateTime('1999-12-31T22:00:00')", "hours-from-dateTime(adjust-dateTime-to-timezone($d, xs:dayTimeDuration('PT2H')))"]
+
+
+def run_reused(case, out):
+    """a value that has already taken part in an operation is used again: `for $d in V return (E1($d), E2($d))` must give
+    for E2 what E2 gives on a fresh literal (an answer remembered on the value object shows here); also through a
+    variable of the dynamic context used by two successive evaluations"""
+    ver, xsd, tz, text, e1, e2 = case['ver'], case['xsd'], case['tz'], case['text'], case['e1'], case['e2']
+    v = lit('dateTime', text)
+    fresh = xp_eval(e2.replace('$d', v), ver, xsd, tz)
+    both = xp_eval('for $d in %s return (count((%s)), %s)' % (v, e1, e2), ver, xsd, tz)
+    out.dim('reused_value', 'for-binding')
+    out.nontrivial = fresh[0] == 'ok'
+
+    def norm(r):
+        if r[0] != 'ok':
+            return r[:2]
+        x = r[1] if isinstance(r[1], list) else [r[1]]
+        return ('ok', [str(i) for i in x])
+    f = norm(fresh)
+    b = norm(both)
+    if b[0] == 'ok':
+        b = ('ok', b[1][1:])
+    # (when E1 itself fails the whole expression fails: nothing to compare)
+    e1_alone = xp_eval(e1.replace('$d', v), ver, xsd, tz)
+    if e1_alone[0] == 'ok' and f != b:
+        out.fail('C11/reused-value/answer-differs-from-fresh-value/for-binding',
+                 {'value': text, 'first': e1, 'then': e2, 'tz': tz, 'xsd': xsd, 'fresh': f, 'after-first-use': b})
+    out.obs = '%s: %s then %s' % (text, e1, e2)
+
+
 def check_case(kind, case):
     out = Outcome()
+    if kind == 'reused':
+        run_reused(case, out)
+        return out
     cx = Ctx(out)
     if kind == 'value':
         run_value(case, cx)
@@ -1165,6 +1208,8 @@ def check_case(kind, case):
 
 
 def shrink(kind, case):
+    if kind == 'reused':
+        return
     if kind == 'arith':
         for f in ('b', 'dur', 'ym'):
             if case.get(f) is not None and sum(1 for g in ('b', 'dur', 'ym') if case.get(g) is not None) > 1:
@@ -1504,10 +1549,19 @@ def run(h):
     # XPath layer
     for _ in range(h.n(26000)):
         h.case('xpath', g_xpath(r))
+    # values used twice
+    texts = ['1999-12-31T22:00:00', '2000-01-01T00:30:00', '12000-01-01T00:00:00', '-0044-03-15T12:00:00', '2000-01-01T12:00:00',
+             '2000-01-01T12:00:00+05:00', '1999-12-31T23:30:00-02:00', '10000-01-01T00:00:00Z', '0001-01-01T00:00:00']
+    for _ in range(h.n(600)):
+        text = r.choice(texts) if r.random() < 0.7 else g_text(r, 'dateTime', '1.0')
+        h.case('reused', {'ver': r.choice(['2.0', '3.1']), 'xsd': r.choice(['1.0', '1.1']), 'tz': r.choice([None, '-05:00', '+05:00', 'Z']),
+                          'text': text, 'e1': r.choice(REUSE_FIRST), 'e2': r.choice(REUSE_THEN)})
 
 
 def floors(v):
     reasons = []
+    if v.got('reused_value') < 300:
+        reasons.append('fewer than 300 values used twice')
     if v.got('oracle_comparisons', 'model') < 20000:
         reasons.append('fewer than 20000 engine results compared with the calendar model')
     for cls in ('ce', 'big', 'bce1', 'bce'):
